@@ -58,6 +58,8 @@ def obligations(tier):
             obs.append(Obligation(f'{fname}-{H}x{W}-every-area', mk(fname, H, W, box=box), dict(function=fname, H=H, W=W, view_box=list(box))))
         for (H, W) in ([(1, 3), (3, 2), (3, 4)] if qk else [(1, 4), (3, 2), (3, 4), (4, 4)]):
             for a in (AREAS_QUICK if qk else AREAS_THOROUGH):
+                if fname == 'raytracing' and H * W >= 16 and (a[1] - a[0] + 1) * (a[3] - a[2] + 1) > 16:
+                    continue  # 25-cell ray-traced views on a 16-cell world: too many opacity patterns
                 if area_ok(a, fname):
                     obs.append(Obligation(f'{fname}-{H}x{W}-area{a}', mk(fname, H, W, fixed=a), dict(function=fname, H=H, W=W, area=list(a))))
     for fname in DETERMINISTIC:
